@@ -276,7 +276,6 @@ STATE_JOBS = [
     S("h_driver", drv(7, 1, n=3, cp=0, user=1, fk=1), ["state.iteration_uses_refinement"], tiers=T, split=12),
     S("h_driver", drv(7, 2, n=3, cp=0, user=1, fk=1), ["state.iteration_uses_refinement"], tiers=T, split=12),
     S("h_driver", drv(7, 1, n=2, cp=0, user=1, B=3), ["state.iteration_uses_refinement"], tiers=T),
-    S("h_driver", drv(7, 2, n=2, cp=0, user=1, C=3, fk=1), ["state.iteration_uses_refinement"], tiers=T, split=12),
 ]
 PLAN["C19"] = dict(functions=DRIVER_FUNCS, bounds=DRIVER_BOUNDS, outside="more iterations; the MPI variants are checked in C04's harness",
                    assumptions=DRIVER_ASSUME,
